@@ -688,6 +688,54 @@ func expressionTextFromInput(c *Ctx, rule string) {
 			})
 			return true
 		})
+		// constants concatenated directly into an Expression's text must be text that was consumed verbatim:
+		// the same constant handed to parse.String / parse.Rune and parsed in this scope
+		consumedConsts := map[string]bool{}
+		ast.Inspect(sc.Body, func(x ast.Node) bool {
+			if call, ok := x.(*ast.CallExpr); ok && len(call.Args) == 1 {
+				if se, ok := call.Fun.(*ast.SelectorExpr); ok && (se.Sel.Name == "String" || se.Sel.Name == "Rune") {
+					if ob := info.Uses[se.Sel]; ob != nil && ob.Pkg() != nil && ob.Pkg().Path() == "github.com/a-h/parse" {
+						if k, isC := constString(info, call.Args[0]); isC {
+							consumedConsts[k] = true
+						} else if v, isI := constInt(info, call.Args[0]); isI {
+							consumedConsts[string(rune(v))] = true
+						}
+					}
+				}
+			}
+			return true
+		})
+		nexp := 0
+		ast.Inspect(sc.Body, func(x ast.Node) bool {
+			call, ok := x.(*ast.CallExpr)
+			if !ok || len(call.Args) == 0 {
+				return true
+			}
+			if fn := calleeOf(info, call); fn == nil || fn.Name() != "NewExpression" || fn.Pkg() != pp.Types {
+				return true
+			}
+			bad := ""
+			var walk func(e ast.Expr)
+			walk = func(e ast.Expr) {
+				e = ast.Unparen(e)
+				if be, ok := e.(*ast.BinaryExpr); ok && be.Op == token.ADD {
+					walk(be.X)
+					walk(be.Y)
+					return
+				}
+				if k, isC := constString(info, e); isC && k != "" && !consumedConsts[k] {
+					bad = fmt.Sprintf("%q", k)
+				}
+			}
+			walk(call.Args[0])
+			if _, isBin := ast.Unparen(call.Args[0]).(*ast.BinaryExpr); isBin {
+				nexp++
+				n++
+				c.check(bad == "", rule, fmt.Sprintf("%s|NewExpression#%d|constants-were-consumed", funcKey(pp, sc), nexp), c.pos(call.Pos()), "constant parts of the text are constants that were parsed verbatim",
+					fmt.Sprintf("%s builds an Expression's text with the constant %s, which is not what a parser consumed in this function: where the input spells that part differently (a CRLF line break for \"\\n\") the recorded text differs from the source at the recorded range", sc.Name.Name, bad))
+			}
+			return true
+		})
 		if len(builders) == 0 {
 			continue
 		}
